@@ -4,7 +4,7 @@ import Driver.Calls
 Line protocol of the forwarding layer (C02).  Not verified; exercised on every line.
 
   fwd wire OP                                   ->  local <kind> | req <handler> <n> PYVAL*n
-  fwd policy <classic|public|default> <get|set|del> NAME <T|F hasattr(obj,name)> <T|F hasattr(obj,prefix+name)>
+  fwd policy <classic|all-attrs|public|default> <get|set|del> NAME <T|F hasattr(obj,name)> <T|F hasattr(obj,prefix+name)>
                                                 ->  ok NAME | err AttributeError
   fwd buffiter <chunk> <max_chunk> <factor> <n items> <-|NAME raised after the items>
                                                 ->  ok <k items yielded> <-|NAME> | err ValueError
@@ -68,7 +68,7 @@ def fwdOp : List String → String
     | some (op, []) => showWire (wireOf op)
     | _ => "bad-op"
   | ["policy", cfg, perm, nameTok, hn, ht] =>
-    match (match cfg with | "classic" => some classicConfig | "public" => some publicConfig | "default" => some defaultConfig | _ => none),
+    match (match cfg with | "classic" => some classicConfig | "all-attrs" => some allAttrsConfig | "public" => some publicConfig | "default" => some defaultConfig | _ => none),
           (match perm with | "get" => some Perm.get | "set" => some Perm.set | "del" => some Perm.del | _ => none),
           pName [nameTok], parseBoolTok hn, parseBoolTok ht with
     | some c, some p, some (name, []), some hasName, some hasTwin =>
